@@ -1093,6 +1093,11 @@ class WSGIApp:
             raise BadRequest("No 'fileName' specified!")
         elif not filename.startswith("/"):
             raise BadRequest(f"Given 'fileName' doesn't start with a slash (/): {filename}")
+        try:
+            # the name becomes the value of the File, which is a PathType
+            model._string_constraints.check_path_type(filename)
+        except ValueError as e:
+            raise BadRequest(f"Given 'fileName' is not a valid PathType: {e}")
 
         file_storage: Optional[FileStorage] = request.files.get('file')
         if file_storage is None:
@@ -1102,7 +1107,14 @@ class WSGIApp:
                 f"Request body is of type {file_storage.mimetype!r}, "
                 f"while {submodel_element!r} has content_type {submodel_element.content_type!r}!")
 
-        submodel_element.value = self.file_store.add_file(filename, file_storage.stream, submodel_element.content_type)
+        stored_name = self.file_store.add_file(filename, file_storage.stream, submodel_element.content_type)
+        try:
+            submodel_element.value = stored_name
+        except ValueError as e:
+            # the file container avoids a name conflict by appending a counter: the result may be too long for a PathType
+            if stored_name != filename:
+                self.file_store.delete_file(stored_name)
+            raise BadRequest(f"The name under which the file would be stored is not a valid PathType: {e}")
         submodel_element.commit()
         return response_t()
 
